@@ -373,7 +373,8 @@ pub fn random_case(rng: &mut Rng, ts: &[usize], focus: u8) -> SysCase {
         st.w[PC] = edge.wrapping_sub(1 + rng.below(ins.len() as u64) as u16);
         code.clear();
         code.extend(ins);
-        st.w[BC] = (st.w[BC] & 0x00FF) | 0x0200;
+        // DJNZ taken (B=2) or not taken (B=1); conditional jumps fall either way with the random flags
+        st.w[BC] = (st.w[BC] & 0x00FF) | if rng.bool() { 0x0200 } else { 0x0100 };
     }
     while code.len() < 48 {
         code.extend(random_instr(rng));
